@@ -62,6 +62,9 @@ def spec_for(c):
                                    "/ledgers": {"get": tagged(op("listLedgers"), ["billing", "admin"])}, "/audits": {"get": tagged(op("listAudits"), ["ops", "admin", "billing"])},
                                    "/users": {"get": tagged(op("listUsers"), ["admin"])}},
                                   [("GET", "/reports"), ("GET", "/invoices"), ("GET", "/ledgers"), ("GET", "/audits")])
+        # a path item given as a $ref into a sibling file (multi-file documents): its operations are operations of the API
+        table["pathitem_ref"] = ({"/things": {"get": op("listThings")}, "/gadgets": {"$ref": "@@PATHITEMS@@#/gadgets"}},
+                                 [("GET", "/things"), ("GET", "/gadgets"), ("POST", "/gadgets")])
         paths, routes = table[a]
         if a == "basepath":
             base_path = "/v1"
@@ -71,9 +74,17 @@ def spec_for(c):
         doc["basePath"] = base_path
     routes = [r if isinstance(r, tuple) else ("GET", r) for r in routes]
     nops = sum(len(v) for v in paths.values())
-    if pos == "shape" and a == "tags_selected":
-        nops = len(routes)          # the operations carrying the selected tag
+    if pos == "shape" and a in ("tags_selected", "pathitem_ref"):
+        nops = len(routes)          # the operations carrying the selected tag / the operations behind the $ref
     return doc, routes, nops, len(defs)
+
+
+def extra_files(c):
+    """sibling files of the document (name -> content); the document refers to them as @@NAME@@"""
+    if c["pos"] == "shape" and c["a"] == "pathitem_ref":
+        op = lambda oid: {"operationId": oid, "responses": {"200": {"description": "ok"}}}
+        return {"PATHITEMS": {"gadgets": {"get": op("listGadgets"), "post": op("createGadget")}}}
+    return {}
 
 
 def gen_flags(c):
@@ -93,7 +104,12 @@ def check(run, replay=None):
         c = cases[i]
         doc, routes, nops, ndefs = spec_for(c)
         sp = run.path("names-%d.json" % i)
-        json.dump(doc, open(sp, "w"))
+        txt = json.dumps(doc)
+        for name, content in extra_files(c).items():
+            fn = "names-%d-%s.json" % (i, name.lower())
+            json.dump(content, open(run.path(fn), "w"))
+            txt = txt.replace("@@%s@@" % name, fn)
+        open(sp, "w").write(txt)
         tag = "n%d" % i
         mod = run.scratch_module("srv-" + tag, modname="scratch/gen")
         evs = []
